@@ -555,6 +555,9 @@ func (vc *VC) havocLoop(li *loopInfo, h *Heap) {
 	}
 	for b := range li.body {
 		for _, in := range b.Instrs {
+			if vc.skipped(in) {
+				continue
+			}
 			switch x := in.(type) {
 			case *ssa.Store:
 				ls := vc.L.Leaves(x.Val.Type())
@@ -839,6 +842,10 @@ func (vc *VC) addObl(o *Obligation) {
 		o.Expect = "unsat"
 	}
 	r := vc.root()
+	// the context of an obligation is what was established BEFORE it in program order: a later
+	// assumption (the loop invariant assumed after its entry check, a callee's postcondition after
+	// its precondition check) must not help to prove an earlier goal
+	o.Ctx = len(r.asserts)
 	r.obls = append(r.obls, o)
 }
 
